@@ -12,13 +12,7 @@ CLAIMED = {
         technique='deterministic simulation: seeded iterator scheduler over '
                   'the view catalogue, differential oracle against a solo '
                   'pass of a freshly built view',
-        text='Seeded search over schedules of next() calls on 2..3 live '
-             'iterators (plus abandonment, close, gc and a fresh pass) for '
-             'every view constructor in the catalogue, stacked up to three '
-             'deep, on small random source tables; every delivered row is '
-             'checked against a solo pass of an identical fresh view after '
-             'every step. Sampling, not enumeration: a clean batch is '
-             'evidence, not proof.',
+        text="Seeded search over schedules of next() calls on 2..3 live iterators (plus abandonment, close, gc, a dropped view, petl's own len/look/header consumers as hidden iterators, and a fresh pass) for every view constructor in the catalogue (145 recipes, 400+ argument variants), stacked up to three deep or forked into sibling views over one base, on small random sources given as lists or tuples, bare or wrapped, read from the simulated store, MemorySource or real files, under a perturbed petl.config; every delivered row is checked against a solo pass of an identical fresh view after every step. Sampling, not enumeration: a clean batch is evidence, not proof.",
         note='Trusted: CPython generator semantics; the solo pass of the real '
              'code as the reference (a recipe whose solo pass raises is '
              'inapplicable); SimTable/SimStore stubs stand for user row and '
@@ -29,13 +23,7 @@ CLAIMED = {
         technique='deterministic simulation: metered row/byte sources, '
                   'consumer tasks under an interleaving schedule, '
                   'differential run on two source lengths, poisoned tails',
-        text='Every streaming recipe (and stacks of them), the extractors '
-             'and the pass-through views are driven by 1..3 consumers '
-             '(next(), islice, head, look, see, _repr_html_, ...) on metered '
-             'sources of two lengths; the check asserts zero data-row pulls '
-             'at construction for all recipes, pulls <= k + declared '
-             'look-ahead after every step, identical cost on both lengths, '
-             'nothing pulled when an iterator is released. Sampled.',
+        text='Every streaming recipe (and stacks of them), the extractors (several argument forms) and the pass-through views incl. tee are driven by 1..3 consumers (next(), islice, head, look, see, _repr_html_, header, list/len/tuple on head views, ...) on metered sources of two lengths under a perturbed petl.config (incl. DEBUG logging with a formatting handler); the check asserts zero data-row pulls at construction for all recipes (a declared budget where a constructor consults the header of a view whose header costs rows), pulls <= k + declared look-ahead after every step, identical cost on both lengths, nothing pulled when an iterator is released. Sampled.',
         note='Trusted: the declared look-ahead constants in '
              'sim/catalogue.py; attribution of pulls to the task being '
              'stepped. Materialising utilities (facet, lookup*, counters) '
@@ -60,12 +48,7 @@ CLAIMED = {
                   'files under randomised knobs and pass histories with '
                   'source-failure injection; oracle = independent stable '
                   'reference sort',
-        text='sort and mergesort on simulated sources with buffersize at '
-             'the boundaries (1,2,3,n-1,n,n+1,n+2,None), cache on/off, '
-             'tempdir, global default, reverse, all key forms; 1..3 '
-             'interleaved/abandoned passes, optional source failure for one '
-             'pass, then two fresh passes; every delivered row compared with '
-             'a reference sort written independently of petl. Sampled.',
+        text="sort and mergesort on simulated sources with buffersize at the boundaries (1,2,3,n-1,n,n+1,n+2,None; a fifth of the cases sweep EVERY buffersize 1..n+2 x cache on/off), cache on/off, tempdir, global default, reverse, all key forms, mergesort header=/missing=/presorted; 1..3 interleaved/abandoned passes, optional source failure (any exception class, incl. a BaseException-class abort) for one pass, then two fresh passes; every delivered row compared with a reference sort written independently of petl, and with petl's own sort(cat(...)). Sampled.",
         note='Trusted: sim/models.py (cross-checked against petl.Comparable '
              'on all pairs of the value pool at every run); the conservative '
              'value domain (no NaN, no list-vs-tuple mixes). Two recorded '
@@ -76,14 +59,7 @@ CLAIMED = {
                   'of iterator/view lifetime events, source failures and '
                   'ENOSPC on a private real temp directory; directory-empty '
                   'and completeness invariants',
-        text='Histories of create/advance/abandon/close/drop-view/gc on '
-             'every temp-file-creating view (sort, all sort-backed '
-             'operators with small buffers, fromdicts on a generator), with '
-             'a source failing at a chosen row or the disk filling up after '
-             'a byte budget; at quiescence the sandbox must be empty, '
-             'surviving iterators and later passes complete, no exception '
-             'in a finaliser, and a fresh pass after the faults stop '
-             'complete. Sampled.',
+        text="Histories of create/advance/abandon/close/drop-view/gc (and petl's own len/look/header) on every temp-file-creating view (sort, all sort-backed operators with small buffers, fromdicts on a generator), with a source failing at a chosen row (any exception class) or the disk filling up after a byte budget; a fifth of the cases enumerate EVERY abandonment point x release order and a failure at EVERY source row as separate short histories; at quiescence the sandbox must be empty, surviving iterators and later passes complete, no exception in a finaliser, and a fresh pass after the faults stop complete. Sampled.",
         note='Trusted: CPython reference counting + gc.collect(); POSIX '
              'unlink semantics; harness reference hygiene (histories run in '
              'their own frame, exceptions never stored).'),
@@ -94,15 +70,7 @@ CLAIMED = {
                   'against a nested-loop reference in streamed-side order '
                   'and against the sort-merge joins; lookups against a dict '
                   'model',
-        text='Each hash join view is stepped by 2..3 iterators (abandoned, '
-             'interleaved, then two fresh passes, cache on/off) and every '
-             'delivered row is compared with a nested-loop reference in '
-             'streamed-side order; header and multiset are compared with '
-             'the corresponding merge join on the same inputs (None, '
-             'mixed-type, compound keys, lkey != rkey, empty sides, ragged '
-             'rows, missing/prefix arguments). The six lookup functions are '
-             'compared with a dict model incl. strict duplicates and a '
-             'user dictionary reused across two calls. Sampled.',
+        text='Each hash join view is stepped by 2..3 iterators (abandoned, interleaved, a source failure part-way through the build or the probe, then two fresh passes, cache on/off, then an edit of the build side and another pass: cache=False must reflect it, cache=True must not re-read) and every delivered row is compared with a nested-loop reference in streamed-side order; header and multiset are compared with the corresponding merge join on the same inputs (None, mixed-type, compound and one-element-list keys, lkey != rkey, empty sides, ragged rows, missing/prefix arguments). The six lookup functions are compared with a dict model incl. strict duplicates, None values, and a user dictionary (dict, OrderedDict, shelf-like copying mapping) reused across two calls. Sampled.',
         note='Claimed for the cache / pass-history / emission-order clauses; '
              'the input space is sampled (without the pass dimension this '
              'would be a differential test, said plainly). Trusted: the '
@@ -113,15 +81,7 @@ CLAIMED = {
                   'against the default call) + history machine of (edit '
                   'source, iterate) steps against a cache model with '
                   'metered sources',
-        text='42 sort-backed operator forms. Knob machine: buffersize 1..n+1, '
-             'tempdir, cache=False, global sort_buffersize, presorted=True '
-             'on inputs presorted by petl.sort (after squaring up), pairs of '
-             'knobs, two passes each, compared with the default call '
-             '(header, rows, order). History machine: passes (full or '
-             'abandoned, over either output of two-output operators) '
-             'interleaved with source edits, judged by a three-case cache '
-             'model; pulls from the metered sources are part of the '
-             'judgement. Sampled.',
+        text='42 sort-backed operator forms. Knob machine: buffersize 1..n+1, tempdir, cache=False, global sort_buffersize, presorted=True on inputs presorted by petl.sort (ragged where every row has its key cells, squared up otherwise), pairs of knobs, two passes each, compared with the default call (header, rows, order). History machine: passes (full, abandoned, or failing through an injected source failure; over either output of two-output operators) interleaved with source edits, judged by a three-case cache model; pulls from the metered sources are part of the judgement. Sampled.',
         note='Trusted: the cache model (DESIGN.md C11); edits happen only '
              'between passes; configurations without a sort are outside the '
              'cache clause.'),
@@ -149,14 +109,7 @@ CLAIMED = {
                   'store compared byte-for-byte with to*, progress/clock '
                   'under a simulated clock with stalls and jumps, cache(n) '
                   'under iterator schedules',
-        text='tee{csv,tsv,pickle,text,html} with drawn arguments: rows '
-             'yielded equal the wrapped rows and the sink equals what the '
-             'matching to* writes, after full passes, after abandoned '
-             'passes followed by a full one, and after a second pass, with '
-             'no handle left open; progress/log_progress/clock under a '
-             'simulated clock (stall, forward/backward jump, coarse '
-             'resolution) for all batch sizes around n; cache(n)/wrap under '
-             'schedules of 2..3 iterators. Sampled.',
+        text='tee{csv,tsv,pickle,text,html} with drawn arguments under a perturbed petl.config: rows yielded equal the wrapped rows and the sink equals what the matching to* writes, after full passes, after abandoned passes followed by a full one, and after a second pass, with no handle left open and no exception; progress/log_progress/clock under a simulated clock (stall, forward/backward jump, coarse resolution) for all batch sizes around n and prefixes containing % or {}; cache(n)/wrap under schedules of 2..3 iterators. Sampled.',
         note='Trusted: the to* writers as the byte reference (a to* call '
              'that raises makes the case inapplicable); SimClock replaces '
              'the time module inside petl.util.timing only.'),
@@ -166,15 +119,7 @@ CLAIMED = {
                   'failure injected at every row index x handle kind x '
                   'commit flag on real sqlite3 file databases; oracle = '
                   'table model read through a fresh connection',
-        text='For every sampled scenario (table, prior contents, history '
-             'prefix, raw or pipelined source) and every combination of '
-             '{todb, appenddb} x {file name, connection, cursor, cursor '
-             'factory} x commit flag (thorough: all 16 per scenario) the '
-             'failure is injected at every index 0..n+1 and as a malformed '
-             'row at every data row, each on a fresh database; a fresh '
-             'connection must see exactly the model contents after the '
-             'call, after caller commit/rollback, and after a follow-up '
-             'load; fromdb must return what was written.',
+        text="For every sampled scenario (table incl. header-only and 1000+ row loads, prior contents, history prefix, source given raw, through a pipeline, or as another table of the same database read with fromdb on the caller's connection; schema argument incl. an attached database holding a same-named table) and every combination of {todb, appenddb} x {file name, connection, cursor, cursor factory} x commit flag (thorough: all 16 per scenario) the failure is injected at every index 0..n+1 (cycling through exception classes incl. TypeError and a BaseException-class abort) and as a malformed row at every data row, each on a fresh database file; a fresh connection must see exactly the model contents after the call, after caller commit/rollback, and after a follow-up load; fromdb through every handle kind must return what was written.",
         note='Trusted: sqlite3 with default transactional connections; '
              'autocommit connections, SQLAlchemy handles and create=True '
              'are out of scope (not importable / not transactional).'),
@@ -184,15 +129,7 @@ CLAIMED = {
                   'failures injected into user callbacks at every subset of '
                   'row (and field) positions x 3 policies x argument-vs-'
                   'config; oracle = policy model',
-        text='16 operator forms (convert in all its argument forms, '
-             'convertall, convertnumbers, format(all), interpolate(all), '
-             'fieldmap, rowmap incl. lazily failing mappers, rowmapmany with '
-             'partial output) on tables of n <= 6 rows; inside each scenario '
-             'every subset of failing positions x {False, True, inline} x '
-             '{argument, petl.config.failonerror at construction} is run, '
-             'with plain / StopIteration / KeyError failures and one or two '
-             'interleaved consumers; expected rows, the surfaced exception '
-             'object and its position come from a small policy model.',
+        text='16 operator forms (convert in all its argument forms, convertall, convertnumbers, format(all), interpolate(all), fieldmap, rowmap incl. lazily failing mappers, rowmapmany with partial output) on tables of n <= 6 rows; inside each scenario every subset of failing positions x {False, True, inline} x {argument, petl.config.failonerror at construction} is run, with failures of seven exception classes (plain, StopIteration, KeyError, IndexError, TypeError, AttributeError) and one or two interleaved consumers, after a decoy view of the same form with another errorvalue; expected rows, the surfaced exception object and its position come from a small policy model.',
         note='Trusted: the policy model in checks/c19.py; injected '
              'exceptions are identified by object identity, natural '
              'failures by type.'),
